@@ -1,6 +1,6 @@
 #!/bin/sh
 # usage: sweep.sh <first_seed> <last_seed> [tier]   - quick (or given) tier of every claimed check under several seeds
-cd /verif || exit 2
+cd "$(dirname "$0")" || exit 2
 tier=${3:-quick}
 ids=$(python3 -c "import json;print(' '.join(c['property_id'] for c in json.load(open('MANIFEST.json'))['checks']))")
 bad=0
